@@ -170,6 +170,10 @@ def check(ctx):
             pass
         elif role[0] == 'assign-alias' and s.func.name in inv.covered(P, {'_check_pending_requests'}) and role[1].isidentifier() and _alias_is_tame(s.func, role[1]):
             pass        # a local name for the list inside the serving scan, used only to measure, index and pop (canonicalised in C10.2/C10.3)
+        elif role[0] == 'subscript-del' and s.func.name in inv.covered(P, {'_check_pending_requests'}):
+            o4.witness('pop')       # `del list[i]`: which element, and when, is decided by C10.2 / C10.3
+        elif role[0] == 'alias':
+            pass        # a local name for the list: its uses are reported as uses of the list (sa/inventory.py)
         else:
             bad = f'unexpected use of the waiting list ({role[0]})'
         if bad:
